@@ -172,7 +172,8 @@ func shouldCheckAgainstZero(ctx *MethodContext, s, t *xtype.Type, isUpdate, call
 		if call || (ctx.Conf.SkipCopySameType && types.Identical(s.T, t.T)) {
 			return (s.List && !s.ListFixed) || s.Pointer
 		}
-		return false
+		// a nil slice must not reach a conversion method that returns nil for it
+		return s.List && !s.ListFixed
 	default:
 		return false
 	}
